@@ -88,7 +88,7 @@ def main():
     rep = core.Report('C09')
     rep.assumptions = ['streams up to 64 KiB per memory object in the loop-contract proof (CBMC object bound); content and filler length otherwise arbitrary',
                        'AbstractFile::read/seekg follow the iostream law proved of UncompressedFile in C15']
-    results = core.run_jobs(jobs)
+    results = core.keep_property(core.run_jobs(jobs), 'C09')
     rep.add_results(results)
     core.triage(rep, results, info)
     return rep.finish('proof', 'goto-cc | goto-instrument --apply-loop-contracts | cbmc ' + ' '.join(FLAGS), core.TRUSTED_BASE)
